@@ -91,11 +91,12 @@ struct Verifier {
       if (cnt < 0) return fail("PREPARE at " + std::to_string(i) + " has a negative frame size");
       if (smi < 0 || smi >= (int)P.stack_maps.size()) return fail("PREPARE at " + std::to_string(i) + " has stack-map index " + std::to_string(smi));
       int j = i + 1, nargs = 0;
+      std::set<int> seen_targets;  // each parameter filled once, in any order
       while (j < n && c[(size_t)j].op == OpCode::ARG) {
         int tgt = c[(size_t)j].parameters.arg.target;
         if (tgt < 0 || tgt >= cnt)
           return fail("ARG at " + std::to_string(j) + " writes register " + std::to_string(tgt) + " of a callee frame of size " + std::to_string(cnt));
-        if (tgt != nargs) return fail("ARG at " + std::to_string(j) + " fills parameter " + std::to_string(tgt) + ", expected " + std::to_string(nargs));
+        if (!seen_targets.insert(tgt).second) return fail("ARG at " + std::to_string(j) + " fills parameter " + std::to_string(tgt) + " a second time");
         inside_call_seq.insert(j);
         nargs++;
         j++;
